@@ -19,6 +19,7 @@ mod proc;
 mod c11;
 mod c16;
 mod c17;
+mod c19;
 mod cfggen;
 mod unicode_c;
 
@@ -39,6 +40,7 @@ fn property(id: &str) -> Option<Property> {
         "C11" => c11::property(),
         "C16" => c16::property(),
         "C17" => c17::property(),
+        "C19" => c19::property(),
         _ => return None,
     })
 }
